@@ -548,9 +548,11 @@ def _run(M, ch, tr, st, rng):
     hist = " ".join(allops)
     st.nontrivial = any(k in hist for k in ("[redo]", "[jump_back]", "[addon]", "f2x_probe"))
     st.distinct["histories"] = tr.shape_digest()
-    st.probe("max_err_over_tol_x1000", 0)
     worst = max((s.maxerr / s.tol for s in sessions), default=0.0)
     st.rendered["worst_error_over_tolerance"] = worst
+    st.maximum("worst_error_over_tolerance", worst)
+    for s in sessions:
+        st.maximum("worst_error_x_scale:" + s.sys.kind, s.maxerr)
     if worst > 1e-2:
         st.probe("error_above_1pct_of_tolerance")
 
